@@ -97,7 +97,10 @@ def run(R, prop, extra_assumptions=()):
     if rc != 0:
         R.proof_problems.append("translator translators/fw/scope failed on the tree: " + out.strip()[-300:])
     R.coverage["translated"] = "coq/Fw/GenScope.v from fw/face/*-transport.go and fw/defn/uri.go (go/ast); " + "coq/Fw/GenConsts.v from fw/fw/{bestroute,multicast,thread}.go, fw/table/{pit-cs,pit-cs-tree,dead-nonce-list}.go, fw/core/config.go"
-    R.prove("Fw")
+    if not R.prove("Fw"):
+        # a theorem no longer checks: still build the proof-free model files the runner is extracted from, so that the
+        # oracle can look for a concrete failing input
+        vlib.coq_make("Fw", targets="GenConsts.vo Model.vo Spec.vo World.vo ScopeDefs.vo GenScope.vo ScopeModel.vo")
     if not R.quick:
         R.coqchk("Fw", ["Fw.Props_" + prop])
     ok, exe, log = vlib.extract_build("Fw")
